@@ -53,6 +53,10 @@ type Network struct {
 	// Join) and returns an error to fail the dial or nil to continue.
 	HoldDial func(d Dial) error
 
+	// ShutdownDelay is how long a transport takes to shut down (a real
+	// transport waits for its listener goroutines); read when Shutdown is called.
+	ShutdownDelay time.Duration
+
 	packets []Packet
 	dials   []Dial
 	capture bool
@@ -257,15 +261,19 @@ func (t *Transport) DialTimeout(addr string, timeout time.Duration) (net.Conn, e
 }
 
 func (t *Transport) DialAddressTimeout(a memberlist.Address, timeout time.Duration) (net.Conn, error) {
-	if t.isDown() {
-		return nil, errors.New("simnet: transport is down")
-	}
 	n := t.net
 	d := Dial{From: t.name, To: a.Addr, ToName: a.Name}
+	// the attempt is on record even if the transport has been shut down (a real
+	// transport's dialer does not care; the attempt is what a check wants to see)
 	n.mu.Lock()
 	if n.capture {
 		n.dials = append(n.dials, d)
 	}
+	n.mu.Unlock()
+	if t.isDown() {
+		return nil, errors.New("simnet: transport is down")
+	}
+	n.mu.Lock()
 	hold := n.HoldDial
 	n.mu.Unlock()
 	if hold != nil {
@@ -324,6 +332,12 @@ func (t *Transport) InjectStream(from string, timeout time.Duration) (net.Conn, 
 }
 
 func (t *Transport) Shutdown() error {
+	t.net.mu.Lock()
+	d := t.net.ShutdownDelay
+	t.net.mu.Unlock()
+	if d > 0 {
+		time.Sleep(d)
+	}
 	t.Kill()
 	return nil
 }
